@@ -31,6 +31,8 @@ typedef int bar_t; //only_for_context cuda cpu_serial
 //include_file inc_cpu.h for_context cpu_serial cpu_openmp
 //include_file inc_all.h for_context cpu_serial cpu_openmp opencl cuda
 /*gpufun*/ double twice(/*gpuglmem*/ const double* x, int i){ return 2*x[i]; }
+//include_file inc_snip.h for_context cpu_serial cpu_openmp opencl cuda
+//include_file inc_snip.h for_context opencl cuda
 /*gpukern*/
 void scale(const int nn, /*gpuglmem*/ const double* /*restrict*/ xin, /*gpuglmem*/ double* /*restrict*/ yout){
   int aa = nn*3 + 1;   /* plain line */
@@ -62,7 +64,9 @@ INC_ALL = [
     "  //end_vectorize\n",
     "} /* end incfun */\n",
 ]
-_F = {"inc_gpu.h": ["#define ON_GPU 1\n", "int gpu_only;\n"], "inc_cpu.h": ["#define ON_CPU 1\n"], "inc_all.h": INC_ALL}
+# (inc_snip.h is requested TWICE by the sample, once for all targets and once for the GPU ones: a file is spliced once
+# per request naming the target -- snippets are included wherever they are needed; seeded C16-f spliced each file once)
+_F = {"inc_gpu.h": ["#define ON_GPU 1\n", "int gpu_only;\n"], "inc_cpu.h": ["#define ON_CPU 1\n"], "inc_all.h": INC_ALL, "inc_snip.h": ["#define SNIP_MARK 1\n"]}
 FILES = {pre + k: v for k, v in _F.items() for pre in ("./", ".//")}
 
 
@@ -138,6 +142,9 @@ def s1(cx):
         for marker, ctxs in (("#define ON_GPU 1", ["opencl", "cuda"]), ("#define ON_CPU 1", ["cpu_serial", "cpu_openmp"])):
             present = marker in lines
             cx.check(present == (tgt in ctxs), f, construct=f"[{tgt}] include providing `{marker}`", detail="file spliced only for the contexts it names", bad_detail=f"include for {ctxs} is {'spliced' if present else 'not spliced'} on {tgt}", sub="S9")
+        nsnip = sum(1 for l in lines if l == "#define SNIP_MARK 1")
+        want_snip = 2 if tgt in ("opencl", "cuda") else 1
+        cx.check(nsnip == want_snip, f, construct=f"[{tgt}] a file requested by two //include_file lines ({want_snip} of them naming {tgt})", detail="spliced once per request that names the target", bad_detail=f"spliced {nsnip} time(s), {want_snip} requests name {tgt}: the text is missing where the other request stands", sub="S9")
         cx.check(not any("//include_file" in l and not l.lstrip().startswith("//") for l in lines) and "int gpu_only;" in lines if tgt in ("opencl", "cuda") else True, f, construct=f"[{tgt}] included lines verbatim", detail="included file content reaches the output", bad_detail="included file content is missing", sub="S9")
         # ---- vectorised blocks (two in the top-level source, one arriving through the include splice)
         is_plain = lambda l: l == "  for (int kk=0; kk<3; kk++){ aa += kk; }" or l.startswith("void incfun(") or l.startswith("void grid(")
